@@ -79,6 +79,120 @@ def bhiksha_stream(ctx, stats):
     return problems
 
 
+def quant_stream(ctx, stats):
+    """lm::ngram::SeparatelyQuantize driven directly (SetupMemory, Train, MiddlePointer::Write/Prob/Backoff) against the
+    extracted rational model of coq/C03/QuantModel.v.  Back-off bits >= 2 here: one back-off bit is finding F6."""
+    import struct
+    from fractions import Fraction
+    rng = ctx.rng
+    drv = vlib.compile_driver("c03_bhiksha", os.path.join(vlib.ROOT, "harness", "drivers", "c03_bhiksha.cc"))
+    model = vlib.ocaml_model("C03")
+    cases = []
+    for _ in range(ctx.pick(300, 5000)):
+        pb = rng.choice([1, 1, 2, 3, 4, rng.range(1, 6)])
+        bb = rng.choice([2, 2, 3, 4, rng.range(2, 5)])
+        npv = rng.choice([0, 1, 2, rng.range(1, 8), rng.range(4, 40), (1 << pb), (1 << pb) + 1, 2 * (1 << pb) - 1])
+        nbv = rng.choice([0, 1, rng.range(1, 8), rng.range(4, 40), (1 << bb) - 2, (1 << bb) - 1])
+        spread = rng.choice([3, 10, 200, 4000])
+        few = rng.below(3) == 0             # few distinct values, many repeats: the shape of F5
+        pool = [-(1 + rng.below(spread)) for _ in range(rng.range(1, 4))]
+        probs = [(rng.choice(pool) if few else -rng.below(spread + 1)) for _ in range(npv)]
+        bpool = [rng.choice([-1, 1]) * (1 + rng.below(spread)) for _ in range(rng.range(1, 4))]
+        backs = [(rng.choice(bpool) if few else rng.choice([-1, -1, -1, 1]) * (1 + rng.below(spread))) for _ in range(nbv)]
+        tests = []
+        for _t in range(rng.range(1, 10)):
+            tp = rng.choice(probs) if probs and rng.below(3) else -rng.below(spread + 8)
+            tb = 0 if rng.below(4) == 0 else (rng.choice(backs) if backs and rng.below(3) else rng.choice([-1, 1]) * (1 + rng.below(spread + 8)))
+            tests.append("%d:%d" % (tp, tb))
+        cases.append("QZ %d %d ; %s ; %s ; %s" % (pb, bb, " ".join(map(str, probs)), " ".join(map(str, backs)), " ".join(tests)))
+    iout = vlib.run_lines(drv, cases)
+    mout = vlib.run_lines(model, cases)
+
+    def fl(h):
+        v = struct.unpack("<f", struct.pack("<I", int(h, 16)))[0]
+        if v != v: return "nan"
+        if v in (float("inf"), float("-inf")): return "-inf" if v < 0 else "+inf"
+        return Fraction(v)
+
+    def mq(t):
+        if t == "-inf": return t
+        a, b = t.split("/")
+        return Fraction(int(a, 16), int(b, 16))
+
+    def close(a, b):
+        if isinstance(a, str) or isinstance(b, str): return a == b
+        return abs(a - b) <= abs(b) / (1 << 22)
+
+    def split(line, conv2):
+        f = line.split()
+        ip, ib, ir = f.index("P"), f.index("B"), f.index("R")
+        return f[ip + 1:ib], f[ib + 1:ir], f[ir + 1:]
+
+    problems = []
+    stats["quant_cases"] = len(cases)
+    stats["quant_values_written"] = 0
+    stats["quant_near_ties_skipped"] = 0
+    stats["quant_exact_readbacks"] = 0
+    second = []
+    stats["quant_lossless_claim_failures"] = 0      # F5 seen through the direct interface (reported by the corpus case)
+    for c, a, b in zip(cases, iout, mout):
+        try:
+            aP, aB, aR = split(a, None); bP, bB, bR = split(b, None)
+        except ValueError:
+            problems.append(("correspondence:quant", "unparsable answer: implementation %r, model %r" % (a[:120], b[:120]), {"case": c[:800]}, False))
+            continue
+        iP, iB = [fl(x) for x in aP], [fl(x) for x in aB]
+        mP, mB = [mq(x) for x in bP], [mq(x) for x in bB]
+        if len(iP) != len(mP) or len(iB) != len(mB) or not all(close(x, y) for x, y in zip(iP + iB, mP + mB)):
+            problems.append(("correspondence:quant-tables", "MakeBins centres differ: implementation %s | %s, model %s | %s" % (iP[:6], iB[:6], mP[:6], mB[:6]), {"case": c[:800]}, False))
+            continue
+        parts = c.split(" ; ")
+        pb = int(parts[0].split()[1])
+        probs = [int(x) for x in parts[1].split()]
+        tests = parts[3].split()
+        # second pass: the model encodes against the implementation's own (float) centres, so the only float effect left is the
+        # rounding of the two subtractions in `value - lo < hi - value`
+        def cs(v): return v if isinstance(v, str) else "%x/%x" % (v.numerator, v.denominator) if v >= 0 else "-%x/%x" % (-v.numerator, v.denominator)
+        second.append((c, "QE %s ; %s ; %s ; %s" % (parts[0].split()[2], " ".join(cs(v) for v in iP), " ".join(cs(v) for v in iB), parts[3]), iP, iB, aR))
+        for t, ar, br in zip(tests, aR, bR):
+            x = Fraction(int(t.split(":")[0]), 64)
+            ip_ = fl(ar.split(":")[0])
+            if int(t.split(":")[0]) in probs and len(set(probs)) <= (1 << pb) and ip_ != x:
+                stats["quant_lossless_claim_failures"] += 1
+            # oracle from the property text: the two zero back-offs stay zero, a non-zero back-off never becomes one of them by code
+    def f32(fr):
+        return Fraction(struct.unpack("<f", struct.pack("<f", float(fr)))[0])
+    eout = vlib.run_lines(model, [q for _, q, _, _, _ in second])
+    for (c, q, iP, iB, aR), e in zip(second, eout):
+        ef = e.split()
+        tests = c.split(" ; ")[3].split()
+        if not ef or ef[0] != "R" or len(ef) - 1 != len(tests) or len(aR) != len(tests):
+            problems.append(("correspondence:quant-encode", "unparsable answer: implementation %r, model %r" % (aR[:6], e[:120]), {"case": c[:800]}, False))
+            continue
+        for t, ar, er in zip(tests, aR, ef[1:]):
+            stats["quant_values_written"] += 1
+            x, xb = [Fraction(int(v), 64) for v in t.split(":")]
+            ip_, ib_ = [fl(v) for v in ar.split(":")]
+            (pc, mp_), (bc, mb_) = [(int(v.split("=")[0]), mq(v.split("=")[1])) for v in er.split(":")]
+            for what, xv, iv, mv, code, table in (("prob", x, ip_, mp_, pc, iP), ("backoff", xb, ib_, mb_, bc, iB)):
+                if iv == mv:
+                    if not isinstance(iv, str) and iv == xv: stats["quant_exact_readbacks"] += 1
+                    continue
+                # the model chose the lower neighbour (exact distances) where float subtraction rounds both distances to the same value
+                if what == "backoff" and xv == 0:
+                    pass
+                elif code + 1 < len(table) and not isinstance(table[code], str) and iv == table[code + 1] and \
+                        xv - table[code] < table[code + 1] - xv and f32(xv - table[code]) == f32(table[code + 1] - xv):
+                    stats["quant_near_ties_skipped"] += 1
+                    continue
+                problems.append(("correspondence:quant-encode", "%s %s reads back as %s, the model (on the implementation's centres) says %s" % (what, xv, iv, mv), {"case": c[:800], "pair": t}, False))
+            if xb == 0 and ib_ != 0:
+                problems.append(("spec:quant-zero-backoff", "zero back-off reads back as %s" % ib_, {"case": c[:800], "pair": t}, True))
+            if xb != 0 and bc < 2:
+                problems.append(("correspondence:quant-encode", "non-zero back-off %s gets the reserved code %d in the model" % (xb, bc), {"case": c[:800], "pair": t}, False))
+    return problems
+
+
 def run(ctx):
     pres = vlib.coq_prove("C03")
     ctx.set_proof(pres)
@@ -193,6 +307,7 @@ def run(ctx):
         if len(problems) > 20:
             break
     bh_problems = bhiksha_stream(ctx, stats)
+    bh_problems += quant_stream(ctx, stats)
     ctx.count("evaluations", stats["scores"])
     ctx.coverage["models"] = nmodels
     ctx.coverage["distinct_nontrivial"] = nontrivial
@@ -201,13 +316,12 @@ def run(ctx):
                             "(bit patterns, words through strings) must be identical as the property states; non-trivial = distinct model of order >= 3")
     ctx.coverage.update(stats)
     ctx.assumptions += ["as C01", "quantised models: structural equality only; value losslessness is finding F5 (see known_findings.jsonl)"]
+    found = False                        # a listed known finding does not count: it must not hide a broken correspondence
     for sig, what, rq in problems:
-        ctx.report(sig, what, rq, True)
-    found = bool(problems)
+        found = bool(ctx.report(sig, what, rq, True)) or found
     for sig, what, rq, f in bh_problems:
         if f:
-            found = True
-            ctx.report(sig, what, rq, True)
+            found = bool(ctx.report(sig, what, rq, True)) or found
     if not found:
         for sig, what, rq, f in bh_problems:
             ctx.report(sig, what, rq, False)
